@@ -248,6 +248,15 @@ func intrinsicTable() map[string]intrinsic {
 		}
 		return done(m.tt.BV(uint64(n), 64))
 	}
+	T[zz+"ThreadsAliveIs"] = func(m *Machine, th *Thread, fr *Frame, f FuncV, a []Value) (Value, invStatus) {
+		n := 0
+		for _, t := range m.threads {
+			if !t.done && t != th {
+				n++
+			}
+		}
+		return done(m.tt.Eq(m.tt.BV(uint64(n), 64), a[0].(*Term)))
+	}
 	T[zz+"UFBytes"] = func(m *Machine, th *Thread, fr *Frame, f FuncV, a []Value) (Value, invStatus) {
 		name := m.argStr(a[0])
 		outLen := m.argInt(a[1])
